@@ -250,7 +250,9 @@ func MakeHole(ctx context.Context, listenConn *net.UDPConn, m *msg.NatHoleResp, 
 		lConn *net.UDPConn
 		raddr *net.UDPAddr
 	}
-	resultCh := make(chan result)
+	// Buffered: a listener may already hold a detect message when its goroutine starts and
+	// must not lose the result because nobody is receiving from the channel yet.
+	resultCh := make(chan result, 1)
 	for _, conn := range listenConns {
 		go func(lConn *net.UDPConn) {
 			addr, err := waitDetectMessage(ctx, lConn, m.Sid, key, timeout, m.DetectBehavior.Role)
